@@ -340,16 +340,10 @@ class GateRun:
                 return
 
 
-def gate_sequences(cfgname, rng, quick):
-    alpha = gate_alphabet(cfgname, reduced=True)
+def core_sequences(cfgname):
+    """the deterministic cores (capability negotiation, password order/repetition/near misses, retry after a refusal):
+    every run executes all of them"""
     seqs = []
-    maxlen = 3 if quick else 4
-    for n in range(1, maxlen + 1):
-        seqs += [list(t) for t in itertools.product(alpha, repeat=n)]
-    full = gate_alphabet(cfgname, reduced=False) + GATED
-    for _ in range(300 if quick else 3000):
-        n = rng.randrange(2, 9)
-        seqs.append([rng.choice(full) for _ in range(n)])
     # capability negotiation cores, exhaustively: each CAP sub-command at each position relative to NICK and USER, with
     # and without the closing CAP END (any CAP LS/REQ - accepted or refused - holds registration back until CAP END)
     spw = CONFIGS[cfgname][0]
@@ -385,11 +379,49 @@ def gate_sequences(cfgname, rng, quick):
                     seqs.append(["PASS " + p1, tail[0], "PASS " + p2, tail[1]])
                     seqs.append([tail[0], "PASS " + p1, "PASS " + p2, tail[1]])
                     seqs.append(["CAP LS 302"] + tail + ["PASS " + p1, "PASS " + p2, "CAP END"])
+    # a refused attempt is followed by another one on the same connection: the nickname was taken at once (433), or
+    # it was taken by somebody else between NICK and USER (late 433) - then a free nickname must be welcomed, with the
+    # password given once at the start still in force
+    users = CONFIGS[cfgname][1]
+    base = (["PASS " + spw] if spw else [])
+    for ulast in (["USER plain 0 * :P"] + (["USER cfgp 0 * :C"] if users else [])):
+        pw = (["PASS userpw"] if "cfgp" in ulast else base)
+        seqs.append(pw + ["NICK gate1", "@rival", ulast, "NICK gate2"])
+        seqs.append(pw + ["NICK gate1", "@rival", ulast, "NICK gate2", "JOIN #o"])
+        seqs.append(pw + ["NICK taken", ulast, "NICK gate2"])
+        seqs.append(pw + [ulast, "NICK taken", "NICK taken", "NICK gate2"])
+        seqs.append(pw + ["CAP LS 302", "NICK gate1", "@rival", ulast, "CAP END", "NICK gate2"])
+    return seqs
+
+
+def gate_sequences(cfgname, rng, quick):
+    alpha = gate_alphabet(cfgname, reduced=True)
+    seqs = []
+    maxlen = 3 if quick else 4
+    for n in range(1, maxlen + 1):
+        seqs += [list(t) for t in itertools.product(alpha, repeat=n)]
+    full = gate_alphabet(cfgname, reduced=False) + GATED
+    for _ in range(300 if quick else 3000):
+        n = rng.randrange(2, 9)
+        seqs.append([rng.choice(full) for _ in range(n)])
+    seqs += core_sequences(cfgname)
     # every gated verb once on a fresh connection and once just before completion
     for g in GATED:
         seqs.append([g])
         seqs.append(["NICK gate1", g, "USER plain 0 * :P"])
     return seqs, len(alpha), maxlen
+
+
+def core_worker(args):
+    """the deterministic cores only (C20's view of predefined users and passwords)"""
+    binary, hooks, cfgname, seed = args
+    g = GateRun(binary, hooks, cfgname, seed)
+    try:
+        g.run(core_sequences(cfgname))
+        inc = None
+    except (wire.Closed, wire.Timeout, OSError, RuntimeError) as ex:
+        inc = "gate cores %s: %r" % (cfgname, ex)
+    return dict(findings=g.findings, cases=g.cases, inconclusive=inc, replays=g.replays)
 
 
 def gate_worker(args):
